@@ -547,6 +547,13 @@ func moveRec(name string, in *tarFile, out *tarFile, picked map[string]struct{})
 	}
 
 	parent, _ := path.Split(strings.TrimSuffix(name, "/"))
+	// A directory without a tar entry of its own has nothing to move; continue with its parent.
+	for cleanEntryName(parent) != "" {
+		if _, ok := in.get(parent); ok {
+			break
+		}
+		parent, _ = path.Split(strings.TrimSuffix(cleanEntryName(parent), "/"))
+	}
 	if err := moveRec(parent, in, out, picked); err != nil {
 		return err
 	}
